@@ -581,6 +581,15 @@ func (g *gen) addAugment(m *mod) {
 		sc.schPath = append(append([]seg{}, a.sc.schPath...), seg{m, cn})
 		g.feat("augment-choice")
 	}
+	// one augment in three adds a leaf "aug-mode" with an inline enumeration of its own: a module that
+	// augments several targets then defines same-named leaves whose enumerations differ
+	if sc.free("aug-mode") && g.chance(35, "aug-mode") {
+		g.budget--
+		sc.take("aug-mode")
+		lst := sc.st.add("leaf", "aug-mode")
+		g.drawEnum("aug-mode-enum").render(lst, sc.m)
+		g.feat("augment-same-named-enum-leaf")
+	}
 	g.drawChildren(sc, g.intn(1, 3, "aug-children"))
 	_ = saved
 	if len(sc.st.subs) == 0 {
